@@ -130,6 +130,35 @@ var e2eRules = []e2eRule{
 		map[string]string{"www": e2eRuleRealmC, "wwwdef": e2eRuleRealmD}, nil},
 	// an override which configures nothing keeps the catalogue realm
 	{"r-wwwempty", "/wwwempty/:x", []config.MechanismConfig{override("www2", map[string]any{}, "")}, []string{"www2 with an empty config"}, nil, nil},
+	// one redirect handler per legal redirect status (and one without a configured status)
+	{"r-rc301", "/rc301/:x", []config.MechanismConfig{{"error_handler": "rc301"}}, []string{"rc301"}, nil, nil},
+	{"r-rc302", "/rc302/:x", []config.MechanismConfig{{"error_handler": "rc302"}}, []string{"rc302"}, nil, nil},
+	{"r-rc303", "/rc303/:x", []config.MechanismConfig{{"error_handler": "rc303"}}, []string{"rc303"}, nil, nil},
+	{"r-rc307", "/rc307/:x", []config.MechanismConfig{{"error_handler": "rc307"}}, []string{"rc307"}, nil, nil},
+	{"r-rc308", "/rc308/:x", []config.MechanismConfig{{"error_handler": "rc308"}}, []string{"rc308"}, nil, nil},
+	{"r-rcunset", "/rcunset/:x", []config.MechanismConfig{{"error_handler": "rcunset"}}, []string{"rcunset (no code configured)"}, nil, nil},
+}
+
+// redirCodes: status every redirect handler of the catalogue has to answer with (handler id -> configured code; 0: no
+// code configured, the documented default 302 applies).
+var redirCodes = map[string]int{"redir": e2eRedirCode, "rc301": 301, "rc302": 302, "rc303": 303, "rc307": 307, "rc308": 308, "rcunset": 0}
+
+// redirHandlers: the catalogue entries of redirCodes, all with the same location template.
+func redirHandlers() []config.Mechanism {
+	ids := make([]string, 0, len(redirCodes))
+	for id := range redirCodes {
+		ids = append(ids, id)
+	}
+	sort.Strings(ids)
+	var hs []config.Mechanism
+	for _, id := range ids {
+		conf := config.MechanismConfig{"to": "https://login.test/signin?m={{ .Request.Method }}"}
+		if code := redirCodes[id]; code != 0 {
+			conf["code"] = code
+		}
+		hs = append(hs, config.Mechanism{ID: id, Type: "redirect", Config: conf})
+	}
+	return hs
 }
 
 type entryPoint struct {
@@ -149,11 +178,11 @@ func startEntryPoints(cfg optsCfg, probes *app.Probes, upstream, remote string) 
 			// the file schema cannot express www_authenticate, so the real handlers are injected here
 			c.Prototypes.ErrorHandlers = append(c.Prototypes.ErrorHandlers,
 				config.Mechanism{ID: "def", Type: "default"},
-				config.Mechanism{ID: "redir", Type: "redirect", Config: config.MechanismConfig{"to": "https://login.test/signin?m={{ .Request.Method }}", "code": e2eRedirCode}},
 				config.Mechanism{ID: "www", Type: "www_authenticate", Config: config.MechanismConfig{"realm": e2eRealm}},
 				config.Mechanism{ID: "www2", Type: "www_authenticate", Config: config.MechanismConfig{"realm": e2eRealm2}},
 				config.Mechanism{ID: "wwwdef", Type: "www_authenticate"},
 			)
+			c.Prototypes.ErrorHandlers = append(c.Prototypes.ErrorHandlers, redirHandlers()...)
 			// redirect handlers whose location depends on the request (e2e_concurrent_test.go)
 			c.Prototypes.ErrorHandlers = append(c.Prototypes.ErrorHandlers, concHandlers()...)
 			// real authorizers whose expressions are evaluated on the data of the request (e2e_real_test.go)
@@ -470,12 +499,17 @@ func judgeE2E(r *core.Run, c *e2eCase, outcome string, st *stats) {
 				}
 			}
 		}
-	case "redir":
-		c.Expected = fmt.Sprintf("%d with Location %s", e2eRedirCode, e2eRedirectTo)
+	case "redir", "rc301", "rc302", "rc303", "rc307", "rc308", "rcunset":
+		code, configured := redirCodes[c.HandlerRan], "configured"
+		if code == 0 {
+			code, configured = 302, "default"
+		}
+		c.Expected = fmt.Sprintf("%d (%s) with Location %s", code, configured, e2eRedirectTo)
 		st.add("redirect_cases", 1)
+		st.add(fmt.Sprintf("redirect_cases_%s_code_%d", configured, code), 1)
 		switch {
-		case o.Status != e2eRedirCode:
-			fail("e2e-status-mismatch", fmt.Sprintf("redirect expected %d, got %d", e2eRedirCode, o.Status))
+		case o.Status != code:
+			fail("e2e-status-mismatch", fmt.Sprintf("redirect expected %d (%s for handler %s), got %d", code, configured, c.HandlerRan, o.Status))
 		case o.Location == "":
 			fail("redirect-location-missing", "redirect without Location")
 		case o.Location != e2eRedirectTo:
